@@ -144,4 +144,13 @@ REGISTRY = {
         "F = 1 iff equal, triangle inequality, Fuchs - van de Graaf on generic random density matrices.",
         "Exact only on stabilizer mixtures; generic matrices: relational laws at 1e-4; trusted: numpy inside graphiq, "
         "projections, TLC", "DESIGN.md 6/C17"),
+    "C06": (
+        "TLA+ ensemble semantics with exact rational weights (depolarizing, Pauli error, photon loss, before/after "
+        "placement); both real backends compiled with noise on and compared by TLC through exact Pauli vectors",
+        "Random circuits (<= 3 qubits) x noise assignments on the dyadic grid (p in {0,3/16,3/8,3/4}, r in {0,1/4,1/2,1}, "
+        "Pauli errors, before/after, control/target separately), with and without measurements: PSD, TraceOK = product of "
+        "survival probabilities, BackendsAgree (exact Pauli vectors), NoiselessOK for zero strength / empty map / switch "
+        "off against the spec's noiseless run; the spec's noisy run is compared as information; the mixture backend's "
+        "per-branch measurement is a named deviation in the spec (known finding).",
+        "Noise strengths on the dyadic grid only; PSD via numpy eigenvalues; <= 3 qubits", "DESIGN.md 6/C06"),
 }
